@@ -17,6 +17,7 @@ A *body* is a list of statements; a statement is a list whose first item is its 
     ["CREATE", shape]            shape in SHAPES; appends a handle to the run's handle table
     ["APPLY", k, mode, fault]    k-th visible handle (mod count); mode in MODES; fault in APPLY_FAULTS
     ["ROUNDTRIP", k, kind]       kind in ROUNDTRIPS; appends a derived handle
+    ["DROP", k]                  forget a handle: the operator (and whatever only it kept alive) is released
     ["TRY", body, catch]         catch in "exc" | "base" | "cancel"
     ["RAISE", kind]              kind in RAISES: Exception classes (SimFault, ValueError, KeyError, TimeoutError,
                                  MemoryError) and BaseException classes (SimBaseFault, GeneratorExit,
@@ -40,7 +41,7 @@ from __future__ import annotations
 import random
 from typing import Any, Iterator
 
-SHAPES = ('single:A', 'single:B', 'blockdiag', 'blockdict', 'method:B', 'expr:AB', 'expr:A2', 'comp:A', 'neg:B', 'nested')
+SHAPES = ('single:A', 'single:B', 'single:T', 'blockdiag', 'blockdict', 'method:B', 'expr:AB', 'expr:A2', 'expr:RC', 'comp:A', 'neg:B', 'nested')
 MODES = ('eager', 'jit', 'fjit', 'jarg')
 APPLY_FAULTS = (None, 'seam-mem', 'seam-rt', 'stdout')
 ROUNDTRIPS = ('flatten', 'reduce', 'compose-reduce', 'pair-reduce', 'transpose')
@@ -155,7 +156,7 @@ def validate(spec: dict) -> None:
             elif kind == 'RAISE':
                 if stmt[1] not in RAISES:
                     raise ValueError(f'unknown RAISE kind {stmt[1]}')
-            elif kind in ('READ', 'CREATE', 'APPLY', 'ROUNDTRIP', 'RAISE', 'BADCONFIG'):
+            elif kind in ('READ', 'CREATE', 'APPLY', 'ROUNDTRIP', 'RAISE', 'BADCONFIG', 'DROP'):
                 pass
             else:
                 raise ValueError(f'unknown statement {kind}')
@@ -187,6 +188,9 @@ def gen_swarm(rng: random.Random, profile: dict) -> dict:
         # 'hoard': one actor creates 20-50 inverses, each under its own configuration, then goes back to
         # the oldest ones (bounded caches / tables of captured states, recycled ids)
         'hoard': rng.random() < 0.04,
+        # 'churn': many sequential blocks, each creating, (applying) and dropping an inverse, so that
+        # configuration states die and their memory is reused (id()-keyed or weakly held bookkeeping)
+        'churn': rng.random() < 0.04,
         'heavy': heavy,
         'fine': fine,
         # a third of the fine runs pre-empt between bytecodes instead of between lines
@@ -298,6 +302,27 @@ class _Gen:
                 body.append(['APPLY', idx, 'eager', None])
         return body
 
+    def churn(self) -> list:
+        rng = self.rng
+        heavy = self.sw['heavy']
+        body: list = []
+        for _ in range(rng.randint(15, 40) if not heavy else rng.randint(10, 18)):
+            self.uid += 1
+            kw = self.kw()
+            if heavy and 'solver' in kw:
+                kw['solver'] = rng.choice(['cg40', 'cg41', 'cg500', 'cg40!'])
+            inner: list = [['CREATE', rng.choice(['single:A', 'single:B', 'single:T'])]]
+            if heavy:
+                inner.append(['APPLY', -1, 'eager', None])
+            else:
+                inner.append(['ROUNDTRIP', -1, 'flatten'])
+                inner.append(['DROP', -2])
+            inner.append(['DROP', -1])
+            if rng.random() < 0.3:
+                inner.insert(0, ['READ'])
+            body.append(['BLOCK', self.uid, kw, inner])
+        return body
+
     def siblings(self, depth: int) -> list:
         """Two inverses whose configurations differ in one setting only, applied through one and the same
         jitted function (shared traces keyed on the operator's static part)."""
@@ -382,6 +407,7 @@ class _Gen:
             if sw['jit'] and budget >= 6 and depth + 2 <= sw['depth'] + 1:
                 w['SIBLINGS'] = 0.8
         w['ROUNDTRIP'] = 0.8
+        w['DROP'] = 0.3
         if 'raise_exc' in self.faults and (in_try or 'death' in self.faults):
             w['RAISE_exc'] = 0.5 + 0.5 * min(depth, 3)
         if 'raise_base' in self.faults and (in_try or 'death' in self.faults):
@@ -427,6 +453,8 @@ class _Gen:
             if fault is not None and not (in_try or 'death' in self.faults):
                 fault = None
             return ['APPLY', rng.randint(0, 7), rng.choice(modes), fault], 1
+        if kind == 'DROP':
+            return ['DROP', rng.choice([-1, -1, -2, rng.randint(0, 7)])], 1
         if kind == 'ROUNDTRIP':
             return ['ROUNDTRIP', rng.randint(0, 7), rng.choice(ROUNDTRIPS)], 1
         if kind == 'TRY':
@@ -502,6 +530,8 @@ def generate(seed: int, profile: dict | None = None) -> dict:
                 programs.append(gen.tower())
             elif swarm['hoard'] and i == 0:
                 programs.append(gen.hoard())
+            elif swarm['churn'] and i == swarm['actors'] - 1:
+                programs.append(gen.churn())
             else:
                 programs.append(gen.body(0, swarm['budget'], False, False, top=True))
     spec = {
